@@ -301,6 +301,35 @@ func closureTables(repo string, cfg *ast.FuncDecl, fsetRun *token.FileSet, run *
 		}
 	}
 
+	// cfg.go post-order `case switchIfStmt`: every condition of a case list is chained (3b98047; before, only c.child[0] was
+	// wired: F53). Model/Cfg.lean compileCaseList takes it as its parameter; the driver reads `(alt a b)` accordingly.
+	if cfg == nil {
+		fact("switchIfStmt chains every condition of a case list", "unrecognised: (*Interpreter).cfg not found")
+	} else {
+		cls := caseClausesNamed(cfg, "switchIfStmt")
+		chained, first := false, false
+		for _, cc := range cls {
+			ast.Inspect(cc, func(x ast.Node) bool {
+				if fs, ok := x.(*ast.ForStmt); ok && fs.Init != nil && printNode(fs.Init) == "j := len(c.child) - 2" &&
+					hasStmt(fs, "cond := c.child[j]") && hasStmt(fs, "cond.tnext = body.start") && hasStmt(fs, "setFNext(cond, nextTest)") && hasStmt(fs, "nextTest = cond.start") {
+					chained = true
+				}
+				return true
+			})
+			if hasStmt(cc, "cond := c.child[0]") && hasStmt(cc, "setFNext(cond, nextTest)") {
+				first = true
+			}
+		}
+		switch {
+		case chained && !first:
+			fact("switchIfStmt chains every condition of a case list", "true")
+		case first && !chained:
+			fact("switchIfStmt chains every condition of a case list", "false")
+		default:
+			fact("switchIfStmt chains every condition of a case list", "unrecognised: wiring of the clause conditions")
+		}
+	}
+
 	// cfg.go: slots of the loop variable, and loopVarForEnd on the body block
 	var forIf *ast.IfStmt
 	if cfg == nil {
